@@ -129,6 +129,14 @@ def keys(o):
     return list(d.keys())
 
 
+def values(o):
+    """values of a dict-like in insertion order (presence must be definite)"""
+    d = _d(o)
+    if isinstance(d, PDict):
+        return [v for (g, v) in d.e.values()]
+    return list(d.values())
+
+
 def items(o):
     """python list of the elements of a list / tuple / set value"""
     if isinstance(o, (PList, PSet)):
@@ -385,3 +393,11 @@ def json_valid(s):
             return False
     from . import models
     return mk(models.JSON_VALID(s.t), 'bool')
+
+
+def concat(*parts):
+    """string concatenation of concrete / symbolic strings"""
+    if all(isinstance(p, str) for p in parts):
+        return ''.join(parts)
+    ts = [z3.StringVal(p) if isinstance(p, str) else p.t for p in parts if not (isinstance(p, str) and p == '')]
+    return mk(z3.Concat(*ts) if len(ts) > 1 else ts[0], 'str')
